@@ -21,18 +21,16 @@ def known_class(j, cat, text):
         return "KF-ALAC-ROUNDTRIP"
     if f.major in (0x01, 0x13) and f.codec == 0x20 and cat in ("frames", "eof", "snapshot"):
         return "KF-WAV-GSM-PAD"
+    if f.major == 0x0F and cat in ("partition", "frames", "eof", "stale"):
+        return "KF-XI-HEADER"
     if f.major == 0x08 and cat == "snapshot":
         return "KF-VOC-UPDATE"
     if f.major == 0x08 and f.codec in (0x10, 0x11) and j.ch == 1 and cat in ("frames", "eof"):
         return "KF-VOC-MONO-G711"
     if f.major == 0x0E and j.sr < 10 and j.n == 0 and cat in ("reopen", "snapshot", "roundtrip"):
         return "KF-PVF-TINY-FILE"
-    if f.major == 0x0E and j.sr < 10 and cat in ("frames", "roundtrip", "eof", "snapshot"):
-        return "KF-PVF-SHORT-HEADER"
-    if f.major in (0x06, 0x21) and j.sr >= 65536 and j.sr % 65536 == 0 and cat in ("reopen", "snapshot", "roundtrip", "frames", "eof"):
-        return "KF-RATE16-WRAP"
-    if f.major == 0x0A and j.sr >= 2 ** 31 - 64 and cat in ("reopen", "snapshot", "roundtrip", "frames", "eof"):
-        return "KF-C10-ircam-rate"
+    if f.major == 0x0E and j.sr < 10 and cat == "snapshot" and text.startswith("crash-point image after 0 frames cannot be opened"):
+        return "KF-PVF-TINY-FILE"       # the 11-byte image of a header update issued before any audio
     if f.major == 0x02 and f.codec in (0x40, 0x41, 0x42) and cat == "snapshot":
         return "KF-DWVW-BUFFERED"
     return None
